@@ -256,6 +256,27 @@ def check(case):
             require(set(out.tolist()) <= set(np.asarray(m.classes_).tolist()), "predict:label-not-in-classes", "%r vs %r" % (sorted(set(out.tolist())), m.classes_), facts)
             require(sorted(np.asarray(m.classes_).tolist()) == sorted(set(y.tolist())), "classes_", "%r" % (m.classes_,), facts)
 
+    # ---- a second estimator built with the SAME binner object (one configured binner handed to two models) and fitted on other data:
+    # the first model keeps routing with the partition it learnt
+    if case.get("shared_binner"):
+        before_ids = np.asarray(m.transform_bins(Qin)).copy()
+        before_out = np.asarray(m.predict(Qin)).copy()
+        cls2 = _mod.PiecewiseClassifier if classifier else _mod.PiecewiseRegressor
+        kw2 = dict(binner=m.binner, estimator=_estimator(case["estimator"], classifier), n_jobs=None)
+        if classifier:
+            kw2["random_state"] = case["random_state"]
+        other = cls2(**kw2)
+        X2 = X[::-1] * 0.5 + 0.25
+        with contextlib.redirect_stdout(io.StringIO()), contextlib.redirect_stderr(io.StringIO()):
+            try:
+                other.fit(X2, y)
+            except Exception:  # noqa: BLE001 - whether the second model can be fitted on that table is not the point
+                other = None
+        require(np.array_equal(np.asarray(m.transform_bins(Qin)), before_ids), "shared-binner:routing-changed",
+                "after ANOTHER estimator built with the same binner object was fitted on other data, transform_bins of the first one changed", facts)
+        after_out = np.asarray(m.predict(Qin))
+        require(after_out.shape == before_out.shape and np.array_equal(after_out, before_out), "shared-binner:predictions-changed",
+                "after another estimator built with the same binner object was fitted, the first one predicts differently", facts)
     # ---- two callers at once: one fitted model serves two batches from two threads (a web service does this); each caller gets the
     # answers of its own batch
     if case.get("two_callers") and len(Q) >= 2:
@@ -332,7 +353,7 @@ def _cases(draw, tier="quick"):
                 binner=binner, estimator=est, n_jobs=draw(st.sampled_from([None, 1, 2, 2, 4])), random_state=draw(st.one_of(st.none(), st.integers(0, 99))),
                 seed=draw(st.integers(0, 2**31 - 2)), Q=Q, xkind=draw(st.sampled_from(["array", "array", "frame"])),
                 qkind=draw(st.sampled_from(["float64", "float64", "float32", "int64", "frame"])),
-                two_callers=draw(st.integers(0, 3)) == 0, verbose=draw(st.integers(0, 3)) == 0,
+                two_callers=draw(st.integers(0, 3)) == 0, shared_binner=draw(st.integers(0, 3)) == 0, verbose=draw(st.integers(0, 3)) == 0,
                 ykind=draw(st.sampled_from(["array", "array", "series"])), zero_w=draw(st.lists(st.integers(0, 49), max_size=4)) if draw(st.integers(0, 3)) == 0 else [], index_perm=draw(st.lists(st.integers(0, 10**6), min_size=50, max_size=50)))
 
 
